@@ -3,7 +3,9 @@
 (* U2/U3: TLC walks the transition tables and chains EXTRACTED FROM THE     *)
 (* REAL walledgarden.Manager (bundle.json, written by harness/walledgarden  *)
 (* under testing/synctest virtual time, real kernel maps created by the     *)
-(* harness) with the WalledGarden contract as monitor.  Tables that are     *)
+(* harness) with the WalledGarden contract as monitor, and those of the     *)
+(* real wifi.Manager (systems with cfg.kind = "gw") with the WifiGateway    *)
+(* contract.  Tables that are                                               *)
 (* closed under their alphabet give a verdict for event sequences of any    *)
 (* length over it.                                                          *)
 (*                                                                         *)
@@ -13,7 +15,7 @@
 (* every state) is explored further, any other violating state is not;      *)
 (* only clauses in Watch are recorded.                                      *)
 (***************************************************************************)
-EXTENDS WalledGarden, Json, SequencesExt
+EXTENDS WalledGarden, WifiGateway, Json, SequencesExt
 
 CONSTANT Watch
 
@@ -27,22 +29,28 @@ Cfg(i)        == Systems[i].cfg
 NodeOf(i, n)  == Systems[i].nodes[n]
 EdgesOf(i, n) == Systems[i].edges[n]
 
+IsGw(i) == Cfg(i).kind = "gw"
+G0Of(i)            == IF IsGw(i) THEN GwG0(Cfg(i)) ELSE G0(Cfg(i))
+StepOf(i, gg, e, o) == IF IsGw(i) THEN GwStep(Cfg(i), gg, e, o) ELSE Step(Cfg(i), gg, e, o)
+EdgeOf(i, gg, e)    == IF IsGw(i) THEN GwEdgeClauses(Cfg(i), gg, e) ELSE EdgeClauses(Cfg(i), gg, e)
+NodeOfC(i, gg, o, e) == IF IsGw(i) THEN GwNodeClauses(Cfg(i), gg, o, e) ELSE NodeClauses(Cfg(i), gg, o, e)
+
 Init == /\ sys \in 1..Len(Systems)
         /\ node = Systems[sys].init
-        /\ g = G0(Cfg(sys))
+        /\ g = G0Of(sys)
         /\ lastop = "init"
-        /\ viol = NodeClauses(Cfg(sys), g, NodeOf(sys, node), InitEv) \cap Watch
+        /\ viol = NodeOfC(sys, g, NodeOf(sys, node), IF IsGw(sys) THEN GwInitEv ELSE InitEv) \cap Watch
         /\ path = <<>>
 
 Next == /\ viol \subseteq Soft
         /\ \E k \in 1..Len(EdgesOf(sys, node)) :
              LET ed == EdgesOf(sys, node)[k]
                  e  == ed.ev
-                 g2 == Step(Cfg(sys), g, e, NodeOf(sys, ed.to))
+                 g2 == StepOf(sys, g, e, NodeOf(sys, ed.to))
              IN /\ node' = ed.to
                 /\ g' = g2
                 /\ lastop' = e.op
-                /\ viol' = (EdgeClauses(Cfg(sys), g, e) \cup NodeClauses(Cfg(sys), g2, NodeOf(sys, ed.to), e)) \cap Watch
+                /\ viol' = (EdgeOf(sys, g, e) \cup NodeOfC(sys, g2, NodeOf(sys, ed.to), e)) \cap Watch
                 /\ path' = Append(path, ed.id)
                 /\ UNCHANGED sys
 
